@@ -1413,7 +1413,8 @@ class TOTP:
         from_uri() helper --
         converts uri params into constructor args.
         """
-        assert label, "from_uri() failed to provide label"
+        if not label:
+            raise cls._uri_parse_error("missing label")
         if not secret:
             raise cls._uri_parse_error("missing 'secret' parameter")
         kwds = dict(label=label, issuer=issuer, key=secret, format="base32")
